@@ -16,14 +16,14 @@ def main():
                       'non-trivial = distinct case with a multi-hop path or an unreachable / failed pair')
     ck.assumptions += ['empty diagonal, positive lengths, s != t (property quantifier)',
                        'navigation_wu calls that hit the watchdog (greedy walk cycling with max_hops=None) are counted as timeouts: termination is not claimed',
-                       "'log' transform paths are validated against the oracle by tolerance 1e-9 only"]
+                       "inexact float lengths ('log' transform, decimal lengths k/10): validated against the oracle by tolerance 1e-9 only, no model correspondence"]
     ok = ck.lean_gate(['BctVerif.Props.C12'], extra_modules=['BctVerif.Model.Dist'])
     if ck.tier == 'thorough' and ok:
         ck.leanchecker(['BctVerif.Props.C12', 'BctVerif.Model.Dist'])
     if ck.replay:
         cases = [json.load(open(ck.replay))['case']['case']]
     else:
-        cases = [dict(c, only='floyd') for c in dc.gen_dist_cases(ck.rs, ck.tier) if c['kind'] in ('bin', 'wei', 'log')]
+        cases = [dict(c, only='floyd') for c in dc.gen_dist_cases(ck.rs, ck.tier) if c['kind'] in ('bin', 'wei', 'log', 'flt')]
         cases += dc.gen_nav_cases(ck.rs, ck.tier)
     results = pmap(dc.run_case, cases)
     dc.absorb(ck, cases, results, FUNCS)
